@@ -16,6 +16,10 @@ type Clause struct {
 	Text  string
 	File  string
 	Line  int
+	// Private: clause of an "owns" line (representation invariant of the receiver's type): assumed at entry and
+	// proved at exit of the function itself; at call sites it is checked and assumed only when the caller is a
+	// method of the same type (clients cannot touch the representation: syntactic scan)
+	Private bool
 }
 
 // LoopSpec holds the annotations of one loop.
@@ -29,7 +33,7 @@ type Anchor struct {
 	Pat   string
 	K     int
 	After bool
-	Kind  string // ghost | assert | assume | abstract
+	Kind  string // ghost | assert | assume | abstract | apply (call of a lemma function: requires proved, ensures assumed)
 	C     *Clause
 	used  bool
 }
@@ -46,6 +50,8 @@ type Contract struct {
 	BV       bool // verify in pure bit-vector mode
 	NoBody   bool
 	Lemma    bool // ghost client lemma function
+	KeepsGhosts bool // the function changes no ghost variable (checked on its body): callers keep their ghost values
+	Pure     bool // deterministic function of its scalar arguments: usable in specifications as the function symbol uf_<name>
 	Wraps    bool // signed arithmetic wraps (faithful modular semantics, no ovf obligations)
 	Reason   string
 	File     string
@@ -53,7 +59,7 @@ type Contract struct {
 	Params   string // for interface methods / externals: "(p []byte) (n int, err error)"
 }
 
-var clauseRe = regexp.MustCompile(`^(requires|ensures|invariant|decreases|modifies|loop|at|flags|params|assert|reason)\b`)
+var clauseRe = regexp.MustCompile(`^(requires|ensures|owns|invariant|decreases|modifies|loop|at|flags|params|assert|reason)\b`)
 var tagRe = regexp.MustCompile(`^\s*((?:\[[A-Za-z0-9_,\- ]+\]\s*)*)(?:([A-Za-z_][A-Za-z0-9_.\-]*):\s)?`)
 
 // parseContracts extracts all /*@ ... @*/ blocks of a file.
@@ -134,6 +140,15 @@ func parseContractBlock(body, file string, line0 int) (*Contract, error) {
 		case "ensures":
 			ct.Ensures = append(ct.Ensures, mk(r))
 			curLoop = -1
+		case "owns":
+			c := mk(r)
+			c.Private = true
+			if c.Label == "" {
+				c.Label = "owns"
+			}
+			ct.Requires = append(ct.Requires, c)
+			ct.Ensures = append(ct.Ensures, c)
+			curLoop = -1
 		case "modifies":
 			for _, m := range splitTop(r.text, ',') {
 				ct.Modifies = append(ct.Modifies, strings.TrimSpace(m))
@@ -159,7 +174,7 @@ func parseContractBlock(body, file string, line0 int) (*Contract, error) {
 			ct.Loops[curLoop].Dec = mk(r)
 		case "at":
 			// at "pattern"#k before|after: kind text
-			m := regexp.MustCompile(`^"((?:[^"\\]|\\.)*)"(?:#(\d+))?\s+(before|after):\s*(ghost|assert|assume|abstract)\s+(.*)$`).FindStringSubmatch(r.text)
+			m := regexp.MustCompile(`^"((?:[^"\\]|\\.)*)"(?:#(\d+))?\s+(before|after):\s*(ghost|assert|assume|abstract|apply|cover)\s+(.*)$`).FindStringSubmatch(r.text)
 			if m == nil {
 				return nil, fmt.Errorf("line %d: bad 'at' clause: %s", r.line, r.text)
 			}
@@ -179,6 +194,10 @@ func parseContractBlock(body, file string, line0 int) (*Contract, error) {
 					ct.BV = true
 				case "lemma":
 					ct.Lemma = true
+				case "pure":
+					ct.Pure = true
+				case "keepsghosts":
+					ct.KeepsGhosts = true
 				case "wraps":
 					ct.Wraps = true
 				default:
